@@ -184,6 +184,8 @@ impl Model {
             let v = self.lookup(p).map(|v| v.dump());
             out.push_str(&format!("{}:T{}G{};", p.join("."), v.as_deref().unwrap_or("~"), v.as_deref().unwrap_or("!")));
         }
+        // the empty path names nothing, whatever the layers hold
+        out.push_str("[]:T~G!;");
         for n in NAMES {
             if self.lookup(&[n]).is_some() {
                 roots.push(n);
@@ -213,6 +215,11 @@ fn observe_real(rt: &dyn Runtime) -> String {
         let t = rt.try_get(&path).map(|v| dump_view(v.as_view()));
         let g = rt.get(&path).ok().map(|v| dump_view(v.as_view()));
         out.push_str(&format!("{}:T{}G{};", p.join("."), t.as_deref().unwrap_or("~"), g.as_deref().unwrap_or("!")));
+    }
+    {
+        let t = rt.try_get(&[]).map(|v| dump_view(v.as_view()));
+        let g = rt.get(&[]).ok().map(|v| dump_view(v.as_view()));
+        out.push_str(&format!("[]:T{}G{};", t.as_deref().unwrap_or("~"), g.as_deref().unwrap_or("!")));
     }
     let roots = rt.roots();
     let mut rs: Vec<String> = roots.iter().map(|k| k.as_str().to_string()).collect();
@@ -402,7 +409,7 @@ pub fn run(ctx: &mut Ctx) {
                         }
                         let r = check_seq(&ops, with_caller, &maps, &objs, &caller_obj);
                         ctx.record(h, has_push);
-                        ctx.add("observations", (PATHS.len() * 2 + 1 + 2) as u64);
+                        ctx.add("observations", (PATHS.len() * 2 + 2 + 1 + 2) as u64);
                         match r {
                             Ok((obs, hashes)) => {
                                 for w in hashes.windows(2) {
